@@ -231,7 +231,7 @@ func oracleC08(pw *string, sched []sysStep, events []string) (string, []string) 
 		return "na", tags
 	}
 	// Walk the events and the schedule together: each connection answers its requests in order, one write each.
-	authed := map[int]bool{}  // an exact AUTH was presented by this connection (before the current request)
+	authed := map[int]bool{} // an exact AUTH was presented by this connection (before the current request)
 	pending := map[int][]sysStep{}
 	for _, s := range sched {
 		pending[s.id] = append(pending[s.id], s)
@@ -327,6 +327,13 @@ func genC13(tier string, seed uint64, emit func(string)) {
 				if pwp != nil {
 					sched = append(sched, mkStep(id, nil, []byte("AUTH"), []byte("wrong")))
 				}
+			case 4:
+				// the two-argument form leaves a user name on the connection that sent it - and on no other
+				if r.Bool() {
+					sched = append(sched, mkStep(id, nil, []byte("AUTH"), []byte("user-"+strconv.Itoa(id)), []byte([]string{pw, "wrong"}[r.Intn(2)])))
+				} else {
+					sched = append(sched, data(id))
+				}
 			default:
 				sched = append(sched, data(id))
 			}
@@ -366,6 +373,13 @@ func oracleC13(pw *string, sched []sysStep, events []string) (string, []string) 
 				return fmt.Sprintf("fail:handler call on connection %d saw state %s, its own history says db=%d auth=%s own", id, body[at+1:], db[id], wantAuth), tags
 			}
 		case strings.HasPrefix(body, "wr:"):
+			// the outcome of a one-argument AUTH depends on its own argument only - not on what this or any other
+			// connection sent before
+			if pw != nil && len(cur.argv) == 2 && cur.argv[0] != nil && strings.ToUpper(string(cur.argv[0])) == "AUTH" {
+				if exact := string(cur.argv[1]) == *pw; exact != (body != "wr:E") {
+					return fmt.Sprintf("fail:AUTH %q on connection %d was answered %s; with its own argument alone it must be %v", cur.argv[1], id, trunc(body, 20), map[bool]string{true: "+OK", false: "an error"}[exact]), tags
+				}
+			}
 			if len(cur.argv) > 0 && cur.argv[0] != nil && body != "wr:E" {
 				switch strings.ToUpper(string(cur.argv[0])) {
 				case "SELECT":
